@@ -144,11 +144,17 @@ async fn write_and_check(
 async fn write_to_disk(data: &[u8], path: &Path) -> PersistenceResult<()> {
     debug!("Writing file {} …", path.to_string_lossy());
     let tmp_file = format!("{}.tmp", path.to_string_lossy());
+    #[cfg(feature = "verif")]
+    crate::verif::crash_point("before-tmp")?;
     write_file(&tmp_file, data).await?;
+    #[cfg(feature = "verif")]
+    crate::verif::crash_point("tmp-written")?;
     validate_file_content(&tmp_file, data).await?;
     fs::rename(tmp_file, path)
         .instrument(debug_span!("rename"))
         .await?;
+    #[cfg(feature = "verif")]
+    crate::verif::crash_point("renamed")?;
     debug!("Writing file {} done.", path.to_string_lossy());
 
     Ok(())
@@ -157,6 +163,13 @@ async fn write_to_disk(data: &[u8], path: &Path) -> PersistenceResult<()> {
 #[instrument(level=Level::DEBUG, skip(data), err)]
 async fn write_file<P: AsRef<Path> + Debug>(path: P, data: &[u8]) -> PersistenceResult<()> {
     let mut file = File::create(&path).await?;
+    #[cfg(feature = "verif")]
+    if crate::verif::crash_point("tmp-torn").is_err() {
+        // a write that was cut short: half of the data reached the file
+        file.write_all(&data[..data.len() / 2]).await?;
+        file.flush().await?;
+        return Err(std::io::Error::other("simulated crash").into());
+    }
     file.write_all(data).await?;
     file.flush().await?;
     Ok(())
